@@ -111,7 +111,7 @@ def run(ctx, theorem_modules, project, direct, what_proj, what_direct, cfg_kw=No
 def replay(ctx, path):
     v = json.load(open(path))["violation"]
     if "input" in v:
-        st, out = impl_matlab([v["input"]], "mymod", [], v.get("options", {}).get("boost", False))
+        st, out = impl_matlab([v["input"]], "mymod", v.get("options", {}).get("ignore", []), v.get("options", {}).get("boost", False))
         print(st)
         if st == "ok":
             for k in sorted(out):
